@@ -558,20 +558,22 @@ def run_unpack_pack(rng, name, rows):
 
 
 # ---- popcount -------------------------------------------------------------------------------------
-def run_popcount(shape, bitdata):
+def run_popcount(shape, bitdata, signed=False):
     """bitdata: nested list shape+(8,) of 0/1 (ground truth); bytes are derived little-endian"""
     import kyupy
     n = len(shape)
     rows = _flat(bitdata, n)
     bytes_ = [sum(b << i for i, b in enumerate(r)) for r in rows]
     a = np.array(bytes_, dtype=np.uint8).reshape(shape)
+    if signed:   # the same packed bytes seen as int8 (e.g. packbits(..., dtype=np.int8)): bytes with the top bit set are negative
+        a = a.view(np.int8)
     got, err = call(kyupy.popcount, a)
     if err is not None:
-        return [], f'popcount raises {err} on shape {shape}'
+        return [], f'popcount raises {err} on shape {shape}{" (int8 view)" if signed else ""}'
     coq = [f'CPop {coq_nl(bytes_)} {int(got)}']
     want = sum(sum(r) for r in rows)
     if int(got) != want:
-        return coq, f'popcount = {int(got)} for bytes {bytes_[:12]}..., number of one bits is {want}'
+        return coq, f'popcount = {int(got)} for {"int8" if signed else "uint8"} bytes {bytes_[:12]}..., number of one bits is {want}'
     return coq, None
 
 
